@@ -219,6 +219,9 @@ class Tr:
         self.uses_ext = []
         self.no_unroll = False
         self.prune = False
+        self.outline = False
+        self.in_block = False
+        self.nblocks = 0
 
     def refuse(self, msg):
         raise Refused('%s: %s' % (self.fn, msg))
@@ -420,6 +423,10 @@ class Tr:
             op = n['opcode']
             if op == ',' or op.endswith('=') and op not in ('==', '!=', '<=', '>='):
                 self.refuse('assignment / comma inside an expression')
+            if op == '-' and self.mod:
+                pm = self.ptr_minus_mod(n, env)
+                if pm is not None:
+                    return pm
             a = self.expr(n['inner'][0], env)
             b = self.expr(n['inner'][1], env)
             if a.t[0] == 'ptr' or b.t[0] == 'ptr':
@@ -512,6 +519,26 @@ class Tr:
             r = (min(a.r[0], b.r[0]), max(a.r[1], b.r[1])) if a.t[0] == 'int' else None
             return V(f'(if {ce} then {a.e} else {b.e})', a.t, r)
         self.refuse('expression kind ' + k)
+
+    def ptr_minus_mod(self, n, env):
+        """`p + x - (x % k)` (k a positive constant, x an unsigned variable): the subtrahend cannot
+        exceed what was added, so the result is the pointer `p + (x - x % k)`; None = other shape"""
+        l, r = strip_parens(n['inner'][0]), strip_parens(n['inner'][1])
+        if l.get('kind') != 'BinaryOperator' or l.get('opcode') != '+' or \
+                r.get('kind') != 'BinaryOperator' or r.get('opcode') != '%':
+            return None
+        x1 = self.as_var(l['inner'][1], False)
+        x2 = self.as_var(r['inner'][0], False)
+        if x1 is None or x1 != x2 or not isinstance(env.get(x1), V) or env[x1].t[0] != 'int' or env[x1].t[2]:
+            return None
+        kv = self.peek(r['inner'][1], env)
+        if kv is None or kv.t[0] != 'int' or kv.r[0] != kv.r[1] or kv.r[0] <= 0:
+            return None
+        p = self.peek(l['inner'][0], env)
+        if p is None or p.t[0] != 'ptr' or len(p.t) != 2 or p.t[1] in ('out', 'opaque'):
+            return None
+        x = env[x1]
+        return V(f'({p.e} + ({x.e} - ({x.e} % {kv.r[0]}#{x.t[1]})).toNat)', p.t)
 
     def load(self, region, off, env):
         """Lean text of the byte at offset `off` of a region"""
@@ -787,6 +814,10 @@ class Tr:
         if self.stop_at and k not in ('CompoundStmt', 'IfStmt', 'WhileStmt', 'ForStmt', 'LabelStmt') \
                 and self.is_cut(s):
             return ret(env, None, reach=True)
+        if self.outline and not self.in_block and self.mod and self.outlinable(s):
+            r = self.outline_block(s, rest, env, ret)
+            if r is not None:
+                return r
         if k == 'CompoundStmt':
             return self.stmts(s.get('inner', []) + rest, env, ret)
         if k == 'NullStmt':
@@ -899,6 +930,8 @@ class Tr:
                           f'{indent(el(self.refine(c0, env, False)))}'
         if k in ('WhileStmt', 'ForStmt') and self.mod:
             return self.loop(s, rest, env, ret)
+        if k == 'SwitchStmt' and self.mod:
+            return self.switch(s, rest, env, ret)
         if k == 'DoStmt' and self.mod:
             body, cnd = s['inner'][0], s['inner'][1]
             cv = self.peek(cnd, env)
@@ -911,6 +944,8 @@ class Tr:
             if not self.loops:
                 self.refuse('continue outside a loop')
             ctx = self.loops[-1]
+            if ctx.get('kind') == 'switch':
+                self.refuse('continue inside a switch')
             if ctx['inc'] is not None and k != '$recur':
                 return self.stmts([ctx['inc'], {'kind': '$recur'}], env, ret)
             return self.recur(ctx, env)
@@ -941,6 +976,93 @@ class Tr:
             return lets + self.stmts(rest, env, ret)
         self.refuse('statement kind ' + k)
 
+    def switch(self, s, rest, env, ret):
+        """`switch (e) { case c: … }` with fall-through whose arms only assign (and `break`): the
+        assigned variables are joined, `let x := if e == c1 then <arm 1 to the end / break> else …`"""
+        if len(s['inner']) != 2 or s['inner'][1].get('kind') != 'CompoundStmt':
+            self.refuse('switch statement shape')
+        cnode, body = s['inner']
+        items = []
+
+        def flat(n):
+            if n.get('kind') == 'CaseStmt':
+                if len(n['inner']) != 2:
+                    self.refuse('case range')
+                items.append(('case', n['inner'][0]))
+                flat(n['inner'][1])
+            elif n.get('kind') == 'DefaultStmt':
+                items.append(('default', None))
+                flat(n['inner'][-1])
+            else:
+                items.append(('stmt', n))
+        for x in body.get('inner', []):
+            flat(x)
+        for kind, x in items:
+            if kind == 'stmt':
+                for y in walk(x):
+                    if y.get('kind') in ('ReturnStmt', 'GotoStmt', 'ContinueStmt', 'LabelStmt', 'WhileStmt', 'ForStmt',
+                                         'DoStmt', 'SwitchStmt', 'CaseStmt', 'DefaultStmt'):
+                        self.refuse('switch arm containing ' + y['kind'])
+                if self.is_cut(x):
+                    self.refuse('cut point inside a switch')
+        env = dict(env)
+        v = self.expr(cnode, env)
+        self.pure('a switch expression')
+        lets = self.flush_loads(env)
+        if v.t[0] != 'int':
+            self.refuse('switch on ' + str(v.t))
+        asg = self.assigned_keys(body)
+        keys = [k for k in env if k in asg or ('$arrays' in asg and isinstance(env[k], V) and env[k].t[0] == 'arr')]
+        if '$ev' in env:
+            keys.append('$ev')
+        ends = []
+
+        def kj(e, val=None, reach=False):
+            if val is not None or reach:
+                self.refuse('internal: escape from a switch')
+            ends.append(e)
+            parts = [self.atom(e[k].e) for k in keys]
+            return '(' + ', '.join(parts) + ')' if len(parts) != 1 else (parts[0] if parts else '()')
+        arms = []
+        default = None
+        seen = set()
+        for i, (kind, x) in enumerate(items):
+            if kind == 'stmt':
+                continue
+            tail = [y for kd, y in items[i + 1:] if kd == 'stmt']
+            self.loops.append({'kind': 'switch', 'rest': [], 'inc': None})
+            try:
+                t = self.stmts(tail, dict(env), kj)
+            finally:
+                self.loops.pop()
+            if kind == 'default':
+                default = t
+            else:
+                cv = self.peek(x, env)
+                if cv is None or cv.t[0] != 'int' or cv.r[0] != cv.r[1]:
+                    self.refuse('case label that is not a constant')
+                if cv.r[0] in seen:
+                    self.refuse('duplicate case label')
+                seen.add(cv.r[0])
+                arms.append((cv.r[0] % (1 << v.t[1]), t))
+        if default is None:
+            default = kj(env)
+        if not keys:
+            return lets + self.stmts(rest, env, ret)
+        term = default
+        for c, t in reversed(arms):
+            term = f'if ({v.e} == {c}#{v.t[1]}) then\n{indent(t)}\nelse\n{indent(term)}'
+        j = self.fresh('j')
+        lets += f'let {j} := (\n{indent(term)})\n'
+        for i, k in enumerate(keys):
+            pr = j if len(keys) == 1 else j + '.2' * i + ('.1' if i < len(keys) - 1 else '')
+            rs = [e[k].r for e in ends]
+            r = (min(x[0] for x in rs), max(x[1] for x in rs)) if env[k].t[0] == 'int' else None
+            env[k] = V(pr, env[k].t, r, nz=all(e[k].nz for e in ends))
+        if any(e.get('$dirty') for e in ends):
+            env['$dirty'] = True
+        return lets + self.stmts(rest, env, ret)
+
     def escapes(self, ss):
         """may control leave the statements other than by falling off their end?"""
         for st in ss:
@@ -951,6 +1073,72 @@ class Tr:
             if self.is_cut(st):
                 return True
         return False
+
+    def outlinable(self, s):
+        """statements that become a function of their own with `outline=True`: a
+        `do { … } while (0)` block (one macro instance) or an assignment statement"""
+        k = s.get('kind')
+        if k == 'DoStmt':
+            return not self.escapes([s['inner'][0]])
+        if k in ('BinaryOperator', 'CompoundAssignOperator'):
+            return k == 'CompoundAssignOperator' or s.get('opcode') == '='
+        return False
+
+    def tproj(self, v, i, n):
+        return v if n == 1 else v + '.2' * i + ('.1' if i < n - 1 else '')
+
+    def outline_block(self, s, rest, env, ret):
+        """the statement as `def <fn>_blk<N> (σ : state tuple) : state tuple` over all variables
+        in scope; the caller's chain is then `let σ' := <fn>_blk<N> σ` with every σ used once"""
+        keys = [k for k, v in env.items() if isinstance(v, V) and v.t[0] not in ('ptrptr', 'aptr')]
+        if not keys:
+            return None
+        n = len(keys)
+        ty = ' × '.join(self.lean_type(env[k]) for k in keys)
+        self.nblocks += 1
+        name = f'{self.fn}_blk{self.nblocks}'
+        env_in = dict(env)
+        lets_in = ''
+        for i, k in enumerate(keys):
+            pn = self.fresh(k)
+            lets_in += f'let {pn} := {self.tproj("σ", i, n)}\n'
+            env_in[k] = V(pn, env[k].t, env[k].r, nz=env[k].nz)
+        ends = []
+
+        def kj(e, val=None, reach=False):
+            if val is not None or reach:
+                self.refuse('internal: escape from an outlined block')
+            ends.append(e)
+            parts = [self.atom(e[k].e) for k in keys]
+            return '(' + ', '.join(parts) + ')' if n != 1 else parts[0]
+        self.in_block = True
+        try:
+            body = self.stmts([s], env_in, kj)
+        finally:
+            self.in_block = False
+        if len(ends) != 1:
+            self.refuse('internal: outlined block with %d exits' % len(ends))
+        end = ends[0]
+        self.loopdefs.append(f'def {name} {self.sigparams}(σ : {ty}) : {ty} :=\n{indent(lets_in + body)}\n')
+        # argument: the previous state tuple itself when nothing else touched the variables
+        e0 = env[keys[0]].e
+        arg = None
+        suf0 = self.tproj('', 0, n)
+        if n > 1 and e0.endswith(suf0):
+            base = e0[:-len(suf0)]
+            if base and all(env[k].e == self.tproj(base, i, n) for i, k in enumerate(keys)):
+                arg = base
+        if arg is None:
+            parts = [self.atom(env[k].e) for k in keys]
+            arg = '(' + ', '.join(parts) + ')' if n != 1 else parts[0]
+        sv = self.fresh('s')
+        env = dict(env)
+        for i, k in enumerate(keys):
+            env[k] = V(self.tproj(sv, i, n), end[k].t, end[k].r, nz=end[k].nz)
+        if end.get('$dirty'):
+            env['$dirty'] = True
+        fuelarg = ''
+        return f'let {sv} := {name} {self.sigargs}{fuelarg}{arg}\n' + self.stmts(rest, env, ret)
 
     def join_if(self, s, rest, env, ret):
         """`if` whose branches only assign: the assigned variables are joined with one
@@ -1066,7 +1254,7 @@ class Tr:
         if self.has_impure(cond):
             self.refuse('call with side effects in a loop condition')
         for x in walk(body):
-            if x.get('kind') in ('LabelStmt', 'SwitchStmt'):
+            if x.get('kind') == 'LabelStmt':
                 self.refuse('contains ' + x['kind'] + ' inside a loop')
         if not _dry and _rng is None:
             un = self.unroll(cond, inc, body, rest, env, ret)
@@ -1441,12 +1629,35 @@ class Tr:
                       f'{indent(kf(self.refine(n, env, False)))}'
 
     def memfunc(self, name, n, env):
-        """memcpy / memmove / memset on the struct's memory region, as an effect"""
-        if not self.struct:
-            self.refuse(name + ' without a struct parameter')
+        """memcpy / memmove / memset on the struct's memory region, as an effect; or
+        `memcpy(&x, p, sizeof x)` = load of an integer from a byte region (little-endian host)"""
         a = n['inner'][1:]
         if len(a) != 3:
             self.refuse(name + ' argument count')
+        d0 = a[0]
+        while d0.get('kind') in ('ImplicitCastExpr', 'CStyleCastExpr', 'ParenExpr') and \
+                d0.get('castKind', 'BitCast') in ('BitCast', 'NoOp'):
+            d0 = d0['inner'][-1]
+        if name == 'memcpy' and d0.get('kind') == 'UnaryOperator' and d0.get('opcode') == '&' and \
+                strip_parens(d0['inner'][0]).get('kind') == 'DeclRefExpr':
+            x = strip_parens(d0['inner'][0])['referencedDecl']['name']
+            old = env.get(x)
+            if not isinstance(old, V) or old.t[0] != 'int' or old.t[2] or old.t[1] not in (16, 32, 64):
+                self.refuse('memcpy into &' + x + ': not an unsigned 16/32/64-bit variable')
+            src = self.expr(a[1], env)
+            ln = self.expr(a[2], env)
+            self.pure('memcpy arguments')
+            if src.t[0] != 'ptr' or len(src.t) != 2 or src.t[1] in ('out', 'opaque', 'mem', 'bytes'):
+                self.refuse('memcpy into a variable from ' + str(src.t))
+            if ln.t[0] != 'int' or ln.r != (old.t[1] // 8, old.t[1] // 8):
+                self.refuse('memcpy into a variable: length is not its size')
+            w = old.t[1]
+            parts = [f'((BitVec.zeroExtend {w} ({src.t[1]} ({src.e} + {i}))) <<< {8 * i})' for i in range(w // 8)]
+            nv = self.fresh(x)
+            env[x] = V(nv, old.t)
+            return f'let {nv} := ({" ||| ".join(parts)})\n'
+        if not self.struct:
+            self.refuse(name + ' without a struct parameter')
         dst = self.expr(a[0], env)
         if dst.t != ('ptr', 'mem'):
             self.refuse(name + ': destination is not inside the struct\'s memory')
@@ -1672,8 +1883,6 @@ def collect_labels(n, tr, depth=0):
         if n.get('kind') in ('WhileStmt', 'ForStmt', 'DoStmt', 'SwitchStmt', 'CallExpr'):
             tr.refuse('contains ' + n['kind'])
     else:
-        if n.get('kind') == 'SwitchStmt':
-            tr.refuse('contains ' + n['kind'])
         if n.get('kind') == 'LabelStmt' and depth > 0:
             tr.refuse('label inside a loop')
         if n.get('kind') in ('WhileStmt', 'ForStmt'):
@@ -1950,13 +2159,14 @@ class Module:
 
     # ---- one function
     def fn(self, cname, roles, stop_at=(), keep=(), flt=None, lean_name=None, _unrolled=False, assume=None,
-           unroll=True, prune=False):
+           unroll=True, prune=False, outline=False):
         d = ast_of(self.src, cname, self.repo, self.extra, flt or self.flt or cname)
         name = lean_name or cname
         tr = Tr(name, roles, mod=self)
         tr.stop_at = tuple(stop_at)
         tr.no_unroll = not unroll
         tr.prune = prune
+        tr.outline = outline
         tr.keep = tuple(keep)
         body = [c for c in d['inner'] if c['kind'] == 'CompoundStmt'][0]
         collect_labels(body, tr)
@@ -2189,7 +2399,7 @@ class Module:
         if has_loop and tr.nloops == 0:
             # every loop was unrolled: no fuel, no Option
             return self.fn(cname, roles, stop_at, keep, flt, lean_name, _unrolled=True, assume=assume,
-                           unroll=unroll, prune=prune)
+                           unroll=unroll, prune=prune, outline=outline)
         if _unrolled and tr.nloops:
             tr.refuse('internal: loop left after unrolling')
         if set(tr.uses_ext) - set(ext_used):
@@ -2410,6 +2620,8 @@ def c16t_module(repo=None, workdir='/tmp'):
     m.fn('t_sp_mix', {'data': ('arr', 12), 'h': ('arr', 12)})
     m.fn('t_sp_end_partial', {'h': ('arr', 12)})
     m.fn('t_sp_end', {'data': ('arr', 12), 'h': ('arr', 12)})
+    m.fn('usual_le64dec', {'p': ('ptr', 'rp')}, flt='usual_le64dec')
+    m.fn('siphash24', {'data': ('ptr', 'rp'), 'len': 'val', 'k0': 'val', 'k1': 'val'}, flt='siphash24')
     m.fn('crc32', {'prev': 'val', 'c': 'val'}, flt='crc32')
     m.fn('calc_crc32', {'data': ('ptr', 'rp'), 'len': 'val', 'init': 'val'}, flt='calc_crc32')
     return m.text('Usual.Gen.C16T', GEN_NOTE % ('usual/hashing/{siphash,lookup3,spooky,crc32}.c, usual/bits.h', 'C16'))
@@ -2509,19 +2721,18 @@ def c05tsha_partA(gen_text, variant='256'):
 
 
 def c05tsha1_module(repo=None, workdir='/tmp'):
-    """NOT HOOKED INTO ANY CHECK (kept as the starting point): the translation works (799 `let`s),
-    but the folding script of c05tsha1_partA did not finish type-checking within 20 minutes
-    (cause not found in the time available; the same script shape works for sha256 / sha512).
-    usual/crypto/sha1.c: sha1_core(ctx, buf) — 80 macro-expanded rounds on the 16-word circular
+    """usual/crypto/sha1.c: sha1_core(ctx, buf) — 80 macro-expanded rounds on the 16-word circular
     buffer `buf` (an array parameter; the `buf` field of the context is not part of the struct view:
-    the function reaches it only through the parameter), rol32 of usual/bits.h, bswap32 of endian.h"""
+    the function reaches it only through the parameter), rol32 of usual/bits.h, bswap32 of endian.h.
+    `outline=True`: every `SHA1OP` block and every assignment statement is a function of its own
+    over the tuple of all variables in scope (sha1_core_blk1 … blk90), sha1_core is their chain."""
     repo = repo or _default_repo()
     stub = _stub(workdir, 'c05tsha1_stub.c', '#include "usual/crypto/sha1.c"\n')
     m = Module(stub, repo, flt='sha1_core')
     m.struct('sha1_ctx', skip=('buf',))
     m.fn('rol32', {'v': 'val', 's': 'val'}, assume={'s': (1, 31)}, flt='rol32')
     m.fn('usual_bswap32', {'x': 'val'}, flt='usual_bswap32')
-    m.fn('sha1_core', {'ctx': 'struct', 'buf': ('arr', 16)}, prune=True)
+    m.fn('sha1_core', {'ctx': 'struct', 'buf': ('arr', 16)}, prune=True, outline=True)
     return m.text('Usual.Gen.C05TSha1', GEN_NOTE % ('usual/crypto/sha1.c, usual/bits.h, usual/endian.h', 'C05'))
 
 
@@ -2529,11 +2740,13 @@ C05TSHA1_PARTA_HEAD = """import Usual.Gen.C05TSha1
 /-!
 # C05 translation tie, SHA-1 (part A): the 80 macro-expanded rounds of `sha1_core`, folded
 
-`Usual.Gen.C05TSha1.sha1_core` (regenerated from usual/crypto/sha1.c on every run) is a chain of 799
-`let`s.  This file states what one `SHA1OP` block does (`Rlo` for `t < 16`, `Rhi` on the 16-word
-circular buffer for `t ≥ 16`; mix function and constant chosen by `t / 20`) and proves, block by
-block (`extract_lets` … `rfl` … `clear_value`; script produced mechanically from the names in the
-generated file), that the whole function is `finishG ctx (roundG 79 (… (roundG 0 (startG ctx buf))))`.
+`Usual.Gen.C05TSha1` (regenerated from usual/crypto/sha1.c on every run) has one function per
+statement of `sha1_core` over the tuple `T` of all variables in scope (`sha1_core_blk1 … blk90`:
+five loads `a = ctx->a …`, eighty `SHA1OP` blocks, five `ctx->a += a …`), and `sha1_core` as their
+chain.  This file states what one `SHA1OP` block does (`Rlo` for `t < 16`, `Rhi` on the 16-word
+circular buffer for `t ≥ 16`; mix function and constant chosen by `t / 20`), proves each block equal
+to it (`blk_round_i`, by `rfl`; the list is produced mechanically from the generated names) and
+folds the chain: `sha1_core ctx buf = finishG ctx (roundG 79 (… (roundG 0 (startG ctx buf))))`.
 No axioms beyond the kernel's.  Part B (`Bridge/C05TSha1.lean`) identifies that with the model.
 -/
 set_option maxRecDepth 100000
@@ -2585,6 +2798,19 @@ def Rhi (j q : Nat) (s : S) : S :=
 
 def roundG (t : Nat) (s : S) : S := if t < 16 then Rlo t s else Rhi (t % 16) (t / 20) s
 
+/-- all variables in scope inside `sha1_core`: `ctx->nbytes, ctx->a … ctx->e, buf, a … e` -/
+abbrev T := BitVec 64 × W × W × W × W × W × Array W × W × W × W × W × W
+
+def unpackT (σ : T) : S :=
+  { a := σ.2.2.2.2.2.2.2.1, b := σ.2.2.2.2.2.2.2.2.1, c := σ.2.2.2.2.2.2.2.2.2.1, d := σ.2.2.2.2.2.2.2.2.2.2.1,
+    e := σ.2.2.2.2.2.2.2.2.2.2.2, w := σ.2.2.2.2.2.2.1 }
+
+def packT (σ : T) (s : S) : T :=
+  (σ.1, σ.2.1, σ.2.2.1, σ.2.2.2.1, σ.2.2.2.2.1, σ.2.2.2.2.2.1, s.w, s.a, s.b, s.c, s.d, s.e)
+
+theorem unpack_pack (σ : T) (s : S) : unpackT (packT σ s) = s := rfl
+theorem pack_pack (σ : T) (s s' : S) : packT (packT σ s) s' = packT σ s' := rfl
+
 def finishG (ctx : sha1_ctx) (s : S) : sha1_ctx × Array W :=
   (({ nbytes := ctx.nbytes, a := (ctx.a + s.a), b := (ctx.b + s.b), c := (ctx.c + s.c), d := (ctx.d + s.d),
       e := (ctx.e + s.e) } : sha1_ctx), s.w)
@@ -2592,51 +2818,200 @@ def finishG (ctx : sha1_ctx) (s : S) : sha1_ctx × Array W :=
 def startG (ctx : sha1_ctx) (buf : Array W) : S :=
   { a := ctx.a, b := ctx.b, c := ctx.c, d := ctx.d, e := ctx.e, w := buf }
 
-set_option maxHeartbeats 2000000 in
-/-- the 80 rounds of the generated `sha1_core`, folded -/
-theorem core_eq_rounds (ctx : sha1_ctx) (buf : Array W) :
-    sha1_core ctx buf = finishG ctx ((List.range 80).foldl (fun s t => roundG t s) (startG ctx buf)) := by
-  unfold sha1_core
+/-- the chain of rounds on the tuple = the chain on `S` -/
+theorem run_pack (σ : T) : ∀ (l : List Nat) (s : S),
+    l.foldl (fun σ i => packT σ (roundG i (unpackT σ))) (packT σ s) = packT σ (l.foldl (fun s i => roundG i s) s) := by
+  intro l
+  induction l with
+  | nil => intro s; rfl
+  | cons i l ih => intro s; simp only [List.foldl_cons, unpack_pack, pack_pack, ih]
+
 """
 
 
 def c05tsha1_partA(gen_text):
-    """text of lean/UsualProofs/Bridge/C05TSha1A.lean (see c05tsha_partA)"""
-    body = gen_text[gen_text.index('def sha1_core'):]
-    lets = re.findall(r'^  let (\w+) := ', body, re.M)
-    if len(lets) != 10 + 16 * 9 + 64 * 10 + 5:
-        raise Refused('sha1_core: unexpected number of statements (%d)' % len(lets))
-    head, tail = lets[:10], lets[-5:]
-    rounds, pos = [], 10
+    """text of lean/UsualProofs/Bridge/C05TSha1A.lean for the outlined sha1_core"""
+    nblk = len(re.findall(r'^def sha1_core_blk\d+ ', gen_text, re.M))
+    if nblk != 90:
+        raise Refused('sha1_core: %d blocks instead of 5 + 80 + 5' % nblk)
+    main = gen_text[gen_text.index('def sha1_core (ctx'):]
+    svars = re.findall(r'^  let (s_\d+) := sha1_core_blk(\d+) ', main, re.M)
+    if [int(b) for _, b in svars] != list(range(1, 91)):
+        raise Refused('sha1_core: the blocks are not chained in order')
+    out = C05TSHA1_PARTA_HEAD
     for i in range(80):
-        k = 9 if i < 16 else 10
-        rounds.append(lets[pos:pos + k])
-        pos += k
+        # a wrong block must fail quickly (a failing `rfl` otherwise burns the default budget 80 times)
+        out += ('set_option maxHeartbeats 20000 in\n'
+                'theorem blk_round_%d (σ : T) : sha1_core_blk%d σ = packT σ (roundG %d (unpackT σ)) := rfl\n'
+                % (i, i + 6, i))
+    out += """
+/-- the five loads `a = ctx->a; … e = ctx->e;` -/
+theorem blk_load (ctx : sha1_ctx) (buf : Array W) (z1 z2 z3 z4 z5 : W) :
+    sha1_core_blk5 (sha1_core_blk4 (sha1_core_blk3 (sha1_core_blk2 (sha1_core_blk1
+      (ctx.nbytes, ctx.a, ctx.b, ctx.c, ctx.d, ctx.e, buf, z1, z2, z3, z4, z5))))) =
+    packT (ctx.nbytes, ctx.a, ctx.b, ctx.c, ctx.d, ctx.e, buf, z1, z2, z3, z4, z5) (startG ctx buf) := rfl
 
-    def pick(names, base):
-        return [n for n in names if re.match(base + r'_\d+$', n)][-1]
+/-- the five stores `ctx->a += a; … ctx->e += e;` -/
+theorem blk_store (σ : T) :
+    sha1_core_blk90 (sha1_core_blk89 (sha1_core_blk88 (sha1_core_blk87 (sha1_core_blk86 σ)))) =
+    (σ.1, σ.2.1 + (unpackT σ).a, σ.2.2.1 + (unpackT σ).b, σ.2.2.2.1 + (unpackT σ).c, σ.2.2.2.2.1 + (unpackT σ).d,
+     σ.2.2.2.2.2.1 + (unpackT σ).e, (unpackT σ).w, (unpackT σ).a, (unpackT σ).b, (unpackT σ).c, (unpackT σ).d,
+     (unpackT σ).e) := rfl
 
-    def smk(c):
-        return '(S.mk %s)' % ' '.join(c[k] for k in 'abcdew')
-    ex = '  extract_lets -merge +onlyGivenNames '
-    cur = dict(zip('abcde', head[5:10]))
-    cur['w'] = 'buf'
-    out = C05TSHA1_PARTA_HEAD + ex + ' '.join(head) + '\n'
-    out += '  have h_s : %s = startG ctx buf := rfl\n' % smk(cur)
-    hyps = []
-    for i, names in enumerate(rounds):
-        new = {k: pick(names, k) for k in 'abcde'}
-        new['w'] = pick(names, 'buf')
-        out += ex + ' '.join(names) + '\n'
-        out += '  have h%d : %s = roundG %d %s := rfl\n' % (i, smk(new), i, smk(cur))
-        out += '  clear_value ' + ' '.join(reversed(names)) + '\n'
-        cur = new
-        hyps.append('h%d' % i)
-    out += ex + ' '.join(tail) + '\n'
-    out += ('  have hfin : ((({ nbytes := ctx.nbytes, a := %s, b := %s, c := %s, d := %s, e := %s } : sha1_ctx), %s) : '
-            'sha1_ctx × Array W) = finishG ctx %s := rfl\n' % (tuple(tail) + (cur['w'], smk(cur))))
-    out += '  rw [hfin]\n  clear hfin\n  simp only [List.range, List.range.loop, List.foldl]\n'
-    out += '  rw [' + ', '.join(reversed(hyps)) + ', h_s]\n\nend UsualProofs.Bridge.C05TSha1\n'
+set_option maxHeartbeats 2000000 in
+/-- the generated `sha1_core`, folded -/
+theorem core_eq_rounds (ctx : sha1_ctx) (buf : Array W) :
+    sha1_core ctx buf = finishG ctx ((List.range 80).foldl (fun s t => roundG t s) (startG ctx buf)) := by
+  unfold sha1_core
+  show (let r := """
+    chain = '(ctx.nbytes, ctx.a, ctx.b, ctx.c, ctx.d, ctx.e, buf, 0#32, 0#32, 0#32, 0#32, 0#32)'
+    for i in range(1, 91):
+        chain = '(sha1_core_blk%d %s)' % (i, chain)
+    out += chain + '\n'
+    out += ('        ((({ nbytes := r.1, a := r.2.1, b := r.2.2.1, c := r.2.2.2.1, d := r.2.2.2.2.1, e := r.2.2.2.2.2.1 } : sha1_ctx),\n'
+            '          r.2.2.2.2.2.2.1) : sha1_ctx × Array W)) = _\n')
+    out += '  simp only [blk_load, unpack_pack, pack_pack' + ''.join(', blk_round_%d' % i for i in range(80)) + ']\n'
+    out += '  rw [blk_store]\n'
+    out += '  simp only [List.range, List.range.loop, List.foldl, unpack_pack]\n'
+    out += '  rfl\n\nend UsualProofs.Bridge.C05TSha1\n'
+    return out
+
+
+def c05tmd5_module(repo=None, workdir='/tmp'):
+    """usual/crypto/md5.c: md5_mix(ctx, X) — 64 `OP(fn, a, b, c, d, k, s, T)` statements, each a
+    function of its own over the tuple of all variables in scope (`outline=True`), rol32 of bits.h"""
+    repo = repo or _default_repo()
+    stub = _stub(workdir, 'c05tmd5_stub.c', '#include "usual/crypto/md5.c"\n')
+    m = Module(stub, repo, flt='md5_mix')
+    m.struct('md5_ctx', skip=('buf',))
+    m.fn('rol32', {'v': 'val', 's': 'val'}, assume={'s': (1, 31)}, flt='rol32')
+    m.fn('md5_mix', {'ctx': 'struct', 'X': ('arr', 16)}, outline=True)
+    return m.text('Usual.Gen.C05TMd5', GEN_NOTE % ('usual/crypto/md5.c, usual/bits.h', 'C05'))
+
+
+C05TMD5_PARTA_HEAD = """import Usual.Gen.C05TMd5
+import Usual.Gen.C05Tables
+/-!
+# C05 translation tie, MD5 (part A): the 64 `OP` statements of `md5_mix`, folded
+
+`Usual.Gen.C05TMd5` (regenerated from usual/crypto/md5.c on every run) has one function per statement
+of `md5_mix` over the tuple `T` of all variables in scope (`md5_mix_blk1 … blk72`: four loads, 64
+`OP`s, four `ctx->a += a …`) and `md5_mix` as their chain.  `opG op X s` is one
+`OP(fn, r0, r1, r2, r3, k, s, T)` read off an entry of the **regenerated** table `md5Ops`
+(`Usual.Gen.C05`, extracted from the same md5.c by checks/C05.py): each block equals `opG` of its
+table entry (`blk_op_i`, by `rfl`: function selector, register permutation, message index, rotation
+count and additive constant of the i-th statement all come from the table), and the chain is
+`finishG ctx (opG (md5Ops[63]) X (… (opG (md5Ops[0]) X (startG ctx))))`.  No axioms beyond the
+kernel's.  Part B (`Bridge/C05TMd5.lean`) identifies that with the model.
+-/
+set_option maxRecDepth 100000
+namespace UsualProofs.Bridge.C05TMd5
+open Usual.Gen.C05TMd5 Usual.Gen.C05
+
+abbrev W := BitVec 32
+
+/-- the working variables `a b c d` -/
+structure S where
+  a : W
+  b : W
+  c : W
+  d : W
+
+def S.get (s : S) (i : Nat) : W :=
+  match i with
+  | 0 => s.a
+  | 1 => s.b
+  | 2 => s.c
+  | _ => s.d
+
+def S.set (s : S) (i : Nat) (v : W) : S :=
+  match i with
+  | 0 => { s with a := v }
+  | 1 => { s with b := v }
+  | 2 => { s with c := v }
+  | _ => { s with d := v }
+
+/-- `F G H I`, selected by the first component of the table entry -/
+def fG (fn : Nat) (x y z : W) : W :=
+  match fn with
+  | 0 => ((x &&& y) ||| ((~~~x) &&& z))
+  | 1 => ((x &&& z) ||| (y &&& (~~~z)))
+  | 2 => ((x ^^^ y) ^^^ z)
+  | _ => (y ^^^ (x ||| (~~~z)))
+
+/-- `OP(fn, r0, r1, r2, r3, k, s, T)`: `r0 = r1 + rol32(r0 + fn(r1, r2, r3) + X[k] + T, s)` -/
+def opG (op : Nat × Nat × Nat × Nat × Nat × Nat × Nat × UInt32) (x : Array W) (r : S) : S :=
+  r.set op.2.1 (r.get op.2.2.1 + (rol32 (((r.get op.2.1 + (fG op.1 (r.get op.2.2.1) (r.get op.2.2.2.1) (r.get op.2.2.2.2.1))) +
+    (x.getD op.2.2.2.2.2.1 0#32)) + op.2.2.2.2.2.2.2.toBitVec) (BitVec.ofNat 32 op.2.2.2.2.2.2.1)))
+
+/-- all variables in scope inside `md5_mix`: `ctx->nbytes, ctx->a … ctx->d, X, a … d` -/
+abbrev T := BitVec 64 × W × W × W × W × Array W × W × W × W × W
+
+def unpackT (σ : T) : S :=
+  { a := σ.2.2.2.2.2.2.1, b := σ.2.2.2.2.2.2.2.1, c := σ.2.2.2.2.2.2.2.2.1, d := σ.2.2.2.2.2.2.2.2.2 }
+
+def xT (σ : T) : Array W := σ.2.2.2.2.2.1
+
+def packT (σ : T) (s : S) : T :=
+  (σ.1, σ.2.1, σ.2.2.1, σ.2.2.2.1, σ.2.2.2.2.1, σ.2.2.2.2.2.1, s.a, s.b, s.c, s.d)
+
+theorem unpack_pack (σ : T) (s : S) : unpackT (packT σ s) = s := rfl
+theorem pack_pack (σ : T) (s s' : S) : packT (packT σ s) s' = packT σ s' := rfl
+theorem xT_pack (σ : T) (s : S) : xT (packT σ s) = xT σ := rfl
+
+def finishG (ctx : md5_ctx) (s : S) : md5_ctx :=
+  { nbytes := ctx.nbytes, a := (ctx.a + s.a), b := (ctx.b + s.b), c := (ctx.c + s.c), d := (ctx.d + s.d) }
+
+def startG (ctx : md5_ctx) : S := { a := ctx.a, b := ctx.b, c := ctx.c, d := ctx.d }
+
+/-- entry `i` of the regenerated table -/
+def opAt (i : Nat) : Nat × Nat × Nat × Nat × Nat × Nat × Nat × UInt32 := md5Ops.getD i (0, 0, 0, 0, 0, 0, 0, 0)
+
+"""
+
+
+def c05tmd5_partA(gen_text):
+    """text of lean/UsualProofs/Bridge/C05TMd5A.lean for the outlined md5_mix"""
+    nblk = len(re.findall(r'^def md5_mix_blk\d+ ', gen_text, re.M))
+    if nblk != 72:
+        raise Refused('md5_mix: %d blocks instead of 4 + 64 + 4' % nblk)
+    main = gen_text[gen_text.index('def md5_mix (ctx'):]
+    svars = re.findall(r'^  let (s_\d+) := md5_mix_blk(\d+) ', main, re.M)
+    if [int(b) for _, b in svars] != list(range(1, 73)):
+        raise Refused('md5_mix: the blocks are not chained in order')
+    out = C05TMD5_PARTA_HEAD
+    tup = '(n, ca, cb, cc, cd, X, z1, z2, z3, z4)'
+    binders = '(n : BitVec 64) (ca cb cc cd : W) (X : Array W) (z1 z2 z3 z4 : W)'
+    for i in range(64):
+        # a wrong block must fail quickly (a failing `rfl` otherwise burns the default budget 64 times)
+        out += ('set_option maxHeartbeats 20000 in\n'
+                'theorem blk_op_%d %s (s : S) :\n    md5_mix_blk%d (packT %s s) = packT %s (opG (opAt %d) X s) := rfl\n'
+                % (i, binders, i + 5, tup, tup, i))
+    out += """
+/-- the four loads `a = ctx->a; … d = ctx->d;` -/
+theorem blk_load (ctx : md5_ctx) (X : Array W) (z1 z2 z3 z4 : W) :
+    md5_mix_blk4 (md5_mix_blk3 (md5_mix_blk2 (md5_mix_blk1 (ctx.nbytes, ctx.a, ctx.b, ctx.c, ctx.d, X, z1, z2, z3, z4)))) =
+    packT (ctx.nbytes, ctx.a, ctx.b, ctx.c, ctx.d, X, z1, z2, z3, z4) (startG ctx) := rfl
+
+/-- the four stores `ctx->a += a; … ctx->d += d;` -/
+theorem blk_store (n : BitVec 64) (ca cb cc cd : W) (X : Array W) (z1 z2 z3 z4 : W) (s : S) :
+    md5_mix_blk72 (md5_mix_blk71 (md5_mix_blk70 (md5_mix_blk69 (packT (n, ca, cb, cc, cd, X, z1, z2, z3, z4) s)))) =
+    (n, ca + s.a, cb + s.b, cc + s.c, cd + s.d, X, s.a, s.b, s.c, s.d) := rfl
+
+set_option maxHeartbeats 2000000 in
+/-- the generated `md5_mix`, folded (every step a rewrite with one of the lemmas above, so that a
+wrong step fails at once and the kernel never has to unfold the chain) -/
+theorem mix_eq_ops (ctx : md5_ctx) (X : Array W) :
+    md5_mix ctx X = finishG ctx ((List.range 64).foldl (fun s i => opG (opAt i) X s) (startG ctx)) := by
+  unfold md5_mix
+  show (let r := """
+    chain = '(ctx.nbytes, ctx.a, ctx.b, ctx.c, ctx.d, X, 0#32, 0#32, 0#32, 0#32)'
+    for i in range(1, 73):
+        chain = '(md5_mix_blk%d %s)' % (i, chain)
+    out += chain + '\n'
+    out += '        (({ nbytes := r.1, a := r.2.1, b := r.2.2.1, c := r.2.2.2.1, d := r.2.2.2.2.1 } : md5_ctx))) = _\n'
+    out += '  rw [blk_load' + ''.join(', blk_op_%d' % i for i in range(64)) + ', blk_store]\n'
+    out += '  simp only [List.range, List.range.loop, List.foldl, finishG]\n\nend UsualProofs.Bridge.C05TMd5\n'
     return out
 
 
@@ -2703,11 +3078,17 @@ def _ttie1(ck, vf, name, fn, what, bridge):
 
 
 TTIE_MODS = {
+    'C16': [('T', c16t_module, 'usual/hashing siphash (whole) / lookup3 + spooky macros / crc32',
+             ['UsualProofs.Bridge.C16T', 'UsualProofs.Bridge.C16TSip'])],
     'C05': [('T', c05t_module, 'usual/crypto/chacha.c chacha_mix + usual/bits.h rol32', ['UsualProofs.Bridge.C05T']),
             ('TSha', c05tsha_module, 'usual/crypto/sha256.c sha256_core',
              ['UsualProofs.Bridge.C05TShaA', 'UsualProofs.Bridge.C05TSha']),
             ('TSha512', c05tsha512_module, 'usual/crypto/sha512.c sha512_core',
-             ['UsualProofs.Bridge.C05TSha512A', 'UsualProofs.Bridge.C05TSha512'])],
+             ['UsualProofs.Bridge.C05TSha512A', 'UsualProofs.Bridge.C05TSha512']),
+            ('TSha1', c05tsha1_module, 'usual/crypto/sha1.c sha1_core',
+             ['UsualProofs.Bridge.C05TSha1A', 'UsualProofs.Bridge.C05TSha1']),
+            ('TMd5', c05tmd5_module, 'usual/crypto/md5.c md5_mix',
+             ['UsualProofs.Bridge.C05TMd5A', 'UsualProofs.Bridge.C05TMd5'])],
 }
 
 
